@@ -18,6 +18,7 @@ RULE = ("every buffer = lead noise (offset 0..63) + frames (1, 2 or 3 from the a
 ASSUMPTIONS = [
     "pulses have exactly the stated amplitude; noise is present on the low samples and in the gaps only ('cleanly modulated')",
     "'at least 10 dB above the noise floor' is taken as: the noise peak is at least 10 dB below the weakest pulse",
+    "'one frame length of noise' is read as the whole preceding frame incl. its 8 us preamble (64 us after a short, 120 us after a long frame). Under the shorter reading (56 us = data block only) the unchanged reader itself drops a weak short frame followed by a >3x stronger one, because its per-frame threshold window of 113 bit periods then reaches the next preamble - tried on 2026-10-05 and not adopted",
     "every frame lies completely inside one buffer; the noise after the last frame ranges from 0 samples to several frame lengths",
     "every buffer contains at least one noise-only aligned 100 us window (the noise estimator takes the quietest window; real buffers hold 100 ms)",
 ]
